@@ -259,7 +259,8 @@ Variable td : option transport_dict.
 Variable d : app_dict.
 Variable mt : bytes.
 Variable defs : list gdef.
-Hypothesis Hfind : ad_find mt d = Some defs.
+(* the message definition of mt, as the walks see it (defs = [] when the dictionary does not know mt) *)
+Hypothesis Hfind : forall tags, match ad_find mt d with Some fields => gd_walk fields tags | None => [] end = gd_walk defs tags.
 Hypothesis Hdict : dict_body_only td defs.
 Variable n : nat.
 Variable fs : list (Z * bytes).
@@ -270,7 +271,7 @@ Local Notation xt := (td_xt td).
 Local Notation M := (map gdef_rg defs).
 
 Lemma ggf_eq : forall hdr tags, fm_get_bytes hdr TAG_MSG_TYPE = Ok mt -> get_group_fields hdr tags (Some d) = gd_walk defs tags.
-Proof. intros hdr tags H. unfold get_group_fields. rewrite H, Hfind. reflexivity. Qed.
+Proof. intros hdr tags H. unfold get_group_fields. rewrite H. apply Hfind. Qed.
 
 Lemma nig_eq : forall hdr tags, fm_get_bytes hdr TAG_MSG_TYPE = Ok mt ->
   is_num_in_group_field hdr tags (Some d) = rg_is_num_in_group M tags.
@@ -634,9 +635,23 @@ Proof.
   unfold fm_get_bytes, fm_add. cbn [fm_lookup field_tag fst init_of tv_init tv_tag]. rewrite lk_get_put_same. reflexivity.
 Qed.
 
-Lemma do_parsing_framed_groups : forall fs td d mt defs v8 v9 mid res,
+Definition ad_defs_as (d : app_dict) (mt : bytes) (defs : list gdef) : Prop :=
+  forall tags, match ad_find mt d with Some fields => gd_walk fields tags | None => [] end = gd_walk defs tags.
+
+Lemma ad_defs_as_some : forall d mt defs, ad_find mt d = Some defs -> ad_defs_as d mt defs.
+Proof. intros d mt defs H tags. rewrite H. reflexivity. Qed.
+
+Lemma gd_walk_nil : forall tags, gd_walk [] tags = [].
+Proof. induction tags as [|t [|u r] IH]; [reflexivity|reflexivity|]. exact IH. Qed.
+
+Lemma ad_defs_as_none : forall d mt, ad_find mt d = None -> ad_defs_as d mt [].
+Proof. intros d mt H tags. rewrite H, gd_walk_nil. reflexivity. Qed.
+
+(* general form: the dictionary is seen only through the walks from the message definition of mt (ad_defs_as), so a
+   MsgType the dictionary does not know is the case defs = [] *)
+Lemma do_parsing_framed_groups_gen : forall fs td d mt defs v8 v9 mid res,
   c11_framed fs = true -> fs = (8, v8) :: (9, v9) :: (35, mt) :: mid -> ~ In TAG_MSG_TYPE (map fst mid) ->
-  ad_find mt d = Some defs -> dict_body_only td defs ->
+  ad_defs_as d mt defs -> dict_body_only td defs ->
   rg_scan (td_xh td) (td_xt td) (Some (map gdef_rg defs)) RgTop 3%nat mid [] = Ok res ->
   exists m, dpg_final td (count_byte SOH (ser fs)) fs (mk_mp m [] 0 0 [] false false) res /\
     do_parsing (ser fs) td (Some d) =
@@ -700,6 +715,23 @@ Proof.
   - unfold dpg_final. cbn [mp_msg]. rewrite M1, M2, M3, M4, M5. repeat split; assumption.
   - destruct (fm_get_int (m_header MM) 9); try reflexivity.
     rewrite M1, G1, dp_fields_length_app, dp_fields_length_init, dp_fields_length_zero, Z.add_0_r. reflexivity.
+Qed.
+
+Lemma do_parsing_framed_groups : forall fs td d mt defs v8 v9 mid res,
+  c11_framed fs = true -> fs = (8, v8) :: (9, v9) :: (35, mt) :: mid -> ~ In TAG_MSG_TYPE (map fst mid) ->
+  ad_find mt d = Some defs -> dict_body_only td defs ->
+  rg_scan (td_xh td) (td_xt td) (Some (map gdef_rg defs)) RgTop 3%nat mid [] = Ok res ->
+  exists m, dpg_final td (count_byte SOH (ser fs)) fs (mk_mp m [] 0 0 [] false false) res /\
+    do_parsing (ser fs) td (Some d) =
+      match fm_get_int (m_header m) TAG_BODY_LENGTH with
+      | Ok bl => if c11_body_length fs =? bl then Ok m else Err E_BODY_LENGTH
+      | Err _ => Err E_BODY_LENGTH_FIELD
+      | Panic => Panic
+      | OutOfFuel => OutOfFuel
+      end.
+Proof.
+  intros fs td d mt defs v8 v9 mid res H Efs Hn35 Hfind Hdict Hscan.
+  exact (do_parsing_framed_groups_gen fs td d mt defs v8 v9 mid res H Efs Hn35 (ad_defs_as_some _ _ _ Hfind) Hdict Hscan).
 Qed.
 
 (* ------------------------------------------------------------------------------------------------ *)
